@@ -735,7 +735,7 @@ pub fn main(ctx: &Ctx) {
                 max_shrink_iters: 150,
                 limits: Limits { cpu_s: 30, wall_s: 180, as_bytes: 4 << 30 },
                 meta: Meta {
-                    rule: "2-4 participants with domain ids in {0,1} and domain tags in {\"\", \"a\"} (the factory configuration is changed between creations), announcement interval 0.5 s or 5 s, announcements lost/delayed/duplicated by a fault tape and optionally cross-delivered between domains, then a healed network; oracle: same (domain, tag) => mutual discovery within 3 announcement periods, different => never listed; a silently partitioned participant is still listed 500 ms before last-datagram + 100 s lease and gone 70 ms after it; an ignored participant is not listed 3 periods later; non-trivial = an isolation pair, a lease boundary, an ignore or an announcement fault was exercised; distinct = hash of the case",
+                    rule: "2-4 participants with domain ids in {0,1} and domain tags in {\"\", \"a\"} (the factory configuration is changed between creations), each with a wall clock offset of 0, +-7 s, +-200 s or +-1 h against the others (visible in its INFO_TS), announcement interval 0.5 s or 5 s, announcements lost/delayed/duplicated by a fault tape and optionally cross-delivered between domains, then a healed network; oracle: same (domain, tag) => mutual discovery within 3 announcement periods, different => never listed; a silently partitioned participant is still listed 500 ms before last-datagram + 100 s lease and gone 70 ms after it; an ignored participant is not listed 3 periods later; non-trivial = an isolation pair, a lease boundary, an ignore or an announcement fault was exercised; distinct = hash of the case",
                     assumptions: &[
                         "dust-dds participants always announce a 100 s lease; other lease values are not exercised",
                         "lease reference instant = arrival of the last datagram (of any kind) from the silent participant, taken from the simulated network",
@@ -1187,6 +1187,9 @@ pub fn c16_eval(case: &C16Case) -> CaseResult {
 pub struct C17P {
     pub domain: u8,
     pub tag: u8,
+    /// clock of this participant against the others, seconds (shows in its INFO_TS)
+    #[serde(default)]
+    pub skew_s: i64,
 }
 
 #[derive(Clone, Debug, Serialize, Deserialize)]
@@ -1206,7 +1209,7 @@ pub struct C17Case {
 
 pub fn c17_strategy() -> BoxedStrategy<C17Case> {
     (
-        prop::collection::vec((0u8..2, 0u8..2).prop_map(|(domain, tag)| C17P { domain, tag }), 2..5),
+        prop::collection::vec((0u8..2, 0u8..2, prop_oneof![4 => Just(0i64), 1 => Just(3_600i64), 1 => Just(-3_600i64), 1 => Just(7i64), 1 => Just(-7i64), 1 => Just(-200i64), 1 => Just(200i64)]).prop_map(|(domain, tag, skew_s)| C17P { domain, tag, skew_s }), 2..5),
         0u8..2,
         any::<bool>(),
         prop::collection::vec(prop_oneof![1 => Just(0u16), 2 => any::<u16>()], 0..60),
@@ -1234,6 +1237,7 @@ async fn c17_scenario(c: C17Case) -> C17Obs {
     let interval_ms: u64 = if c.interval == 0 { 500 } else { 5_000 };
     with_world(|w| {
         w.net.cross_domain = c.cross_domain;
+        w.net.clock_skew_s = c.participants.iter().map(|p| p.skew_s).collect();
         w.net.tape = c.tape.iter().copied().collect();
         w.net.attack_meta = true;
         // announcements may be lost or delayed, never coalesced
@@ -1271,6 +1275,9 @@ async fn c17_scenario(c: C17Case) -> C17Obs {
     let mut classes = std::collections::BTreeSet::new();
     if !c.tape.is_empty() {
         classes.insert("announcement_faults".to_string());
+    }
+    if c.participants.iter().any(|p| p.skew_s != 0) {
+        classes.insert("clock_skew".to_string());
     }
     // let the tape run out, then heal: 3 announcement periods must suffice
     let mut waited = 0u64;
